@@ -3,6 +3,7 @@ package main
 // Go-coded models of external functions (trusted; every one used is listed in the evidence).
 
 import (
+	"sort"
 	"strings"
 	"go/types"
 
@@ -68,6 +69,10 @@ func init() {
 			return a[0], true
 		},
 		"bytes.Equal":        modelBytesEqual,
+		"strings.Join": func(e *Exec, c *ssa.CallCommon, a []Val, in ssa.Instruction) (Val, bool) {
+			e.trust("strings.Join is the uninterpreted function strjoin(elements, separator) of the slice contents")
+			return e.strJoin(a[0].(*Term), a[1].(*Term)), true
+		},
 		"crypto/hmac.Equal":  modelBytesEqual,
 		"errors.New":         modelNewError,
 		"fmt.Errorf":         modelNewError,
@@ -204,6 +209,10 @@ func modelNow(e *Exec, c *ssa.CallCommon, a []Val, in ssa.Instruction) (Val, boo
 		e.vc.Assume(True, SGe(t, e.root.lastNow))
 	}
 	e.root.lastNow = t
+	// the ghost clock (contract identifier "clock") is the latest reading; it never goes back
+	e.clock0()
+	e.vc.Assume(True, SGe(t, e.heapGet("GH.clock", STime)))
+	e.heapSet("GH.clock", t)
 	// now#k in contracts numbers the readings of the function's own body and those exposed by callee
 	// contracts, not the ones inside inlined helpers (e.g. the timestamp of an error value)
 	if (!e.silent || c == nil) && len(e.inlineStack) == 0 {
@@ -349,21 +358,259 @@ func modelLock(level int, acquire bool) goModel {
 	}
 }
 
-// lockOp updates the lockset; the lock-invariant (havoc at acquire) rule is applied by the property driver hook.
+// GuardInfo: a "guards" declaration of a type spec: the mutex field Field of type TypeName protects the maps
+// reachable from the listed fields; Inv (optional) is the lock invariant over "self".
+type GuardInfo struct {
+	TypeName, Field string
+	Heaps           map[string]string // guarded heaps (map heaps MP./MV.) -> sort
+	Maps            []*types.Map      // the guarded map types
+	Inv             *CExpr
+	InvText         string
+}
+
+// guardOfLock finds the guard declaration for a lock pointer &obj.field.
+func (e *Exec) guardOfLock(lock Val) *GuardInfo {
+	p, ok := lock.(*Ptr)
+	if !ok || len(p.Path) == 0 {
+		return nil
+	}
+	pe := p.Path[len(p.Path)-1]
+	if pe.Idx != nil || pe.ContT == nil {
+		return nil
+	}
+	st, ok := types.Unalias(pe.ContT).Underlying().(*types.Struct)
+	if !ok || pe.Field >= st.NumFields() {
+		return nil
+	}
+	return e.P.guardFor(pe.ContT, st.Field(pe.Field).Name())
+}
+
+func (p *Program) guardFor(contT types.Type, field string) *GuardInfo {
+	p.mu.Lock()
+	defer p.mu.Unlock()
+	p.loadGuards()
+	return p.guards[shortName(types.TypeString(types.Unalias(contT), nil))+"#"+field]
+}
+
+// guardsOfHeap: the guard declarations protecting a map heap.
+func (p *Program) guardsOfHeap(hn string) []*GuardInfo {
+	p.mu.Lock()
+	defer p.mu.Unlock()
+	p.loadGuards()
+	var out []*GuardInfo
+	for _, g := range p.guardList {
+		if _, ok := g.Heaps[hn]; ok {
+			out = append(out, g)
+		}
+	}
+	return out
+}
+
+func (p *Program) loadGuards() {
+	if p.guards != nil {
+		return
+	}
+	p.guards = map[string]*GuardInfo{}
+	var names []string
+	for n := range p.TypeSpecs {
+		names = append(names, n)
+	}
+	sort.Strings(names)
+	for _, n := range names {
+		ts := p.TypeSpecs[n]
+		gd, ok := ts.Attrs["guards"]
+		if !ok {
+			continue
+		}
+		parts := strings.SplitN(gd, "::", 2)
+		if len(parts) != 2 {
+			continue
+		}
+		T := p.lookupType(ts.Name)
+		if T == nil {
+			continue
+		}
+		st, ok := types.Unalias(T).Underlying().(*types.Struct)
+		if !ok {
+			continue
+		}
+		g := &GuardInfo{TypeName: shortName(types.TypeString(types.Unalias(T), nil)), Field: strings.TrimSpace(parts[0]), Heaps: map[string]string{}}
+		for _, f := range strings.Split(parts[1], ",") {
+			f = strings.TrimSpace(f)
+			for i := 0; i < st.NumFields(); i++ {
+				if st.Field(i).Name() == f {
+					all := map[string]string{}
+					reachableHeaps(st.Field(i).Type(), all, map[string]bool{})
+					for k, v := range all {
+						if strings.HasPrefix(k, "MP.") || strings.HasPrefix(k, "MV.") {
+							g.Heaps[k] = v
+						}
+					}
+					reachableMaps(st.Field(i).Type(), &g.Maps, map[string]bool{})
+				}
+			}
+		}
+		if inv, ok := ts.Attrs["lockinv"]; ok {
+			ip := strings.SplitN(inv, "::", 2)
+			if len(ip) == 2 && strings.TrimSpace(ip[0]) == g.Field {
+				g.InvText = strings.TrimSpace(ip[1])
+				g.Inv, _ = ParseCExpr(g.InvText)
+			}
+		}
+		p.guards[g.TypeName+"#"+g.Field] = g
+		p.guardList = append(p.guardList, g)
+	}
+}
+
+// heldGet: current level of the lock with key k (symbolic entry level when the function has not touched it yet).
+func (e *Exec) heldGet(k string, gi *GuardInfo) *Term {
+	if v, ok := e.st.held[k]; ok {
+		return v
+	}
+	if e.root.held0 == nil {
+		e.root.held0 = map[string]*Term{}
+		e.root.heldInfo = map[string]*GuardInfo{}
+	}
+	if v, ok := e.root.held0[k]; ok {
+		return v
+	}
+	// a function whose contract does not mention held() is entered with none of the declared locks held
+	// (listed assumption); otherwise the entry level is symbolic and constrained by its preconditions
+	mentions := false
+	if e.con != nil {
+		for _, rq := range e.con.Requires {
+			if strings.Contains(rq.Text, "held(") {
+				mentions = true
+			}
+		}
+	}
+	if !mentions {
+		e.vc.Trusted["locks: a function without a held() precondition is entered with none of the declared locks held"] = true
+		e.root.held0[k] = IntLit(0)
+		if gi != nil {
+			e.root.heldInfo[k] = gi
+		}
+		return e.root.held0[k]
+	}
+	v := e.vc.Fresh("held0", SInt)
+	e.vc.Assume(True, And(IntLe(IntLit(0), v), IntLe(v, IntLit(2))))
+	e.root.held0[k] = v
+	if gi != nil {
+		e.root.heldInfo[k] = gi
+	}
+	return v
+}
+
+// lockSelfEnv: contract environment with "self" bound to the object holding the lock.
+func (e *Exec) lockSelfEnv(lock Val) *CEnv {
+	p := lock.(*Ptr)
+	owner := *p
+	owner.Path = append([]PathEl(nil), p.Path[:len(p.Path)-1]...)
+	contT := p.Path[len(p.Path)-1].ContT
+	owner.Typ = contT
+	owner.NonNil = true
+	env := &CEnv{e: e, vars: map[string]CV{}, st: e.st}
+	if e.fn.Pkg != nil {
+		env.pkg = e.fn.Pkg.Pkg
+	}
+	env.vars["self"] = CV{V: &owner, T: types.NewPointer(contT)}
+	return env
+}
+
+// lockOp updates the lockset and applies the lock-invariant rule: at an acquisition the state protected by the
+// lock is arbitrary (other goroutines may have changed it) up to the declared lock invariant; at a release of the
+// write lock the invariant must hold again.
 func (e *Exec) lockOp(lock Val, level int, acquire bool, g *Term) {
+	// a deferred release runs under the guard it was registered with
+	saveG := e.g
+	if g != e.g {
+		e.g = And(e.g, g)
+	}
+	defer func() { e.g = saveG }()
 	k := lockKey(lock)
-	cur, ok := e.st.held[k]
-	if !ok {
-		cur = IntLit(0)
+	gi := e.guardOfLock(lock)
+	cur := e.heldGet(k, gi)
+	if gi != nil {
+		if e.root.heldInfo == nil {
+			e.root.held0 = map[string]*Term{}
+			e.root.heldInfo = map[string]*GuardInfo{}
+		}
+		e.root.heldInfo[k] = gi
 	}
 	if acquire {
 		if e.onAcquire != nil {
 			e.onAcquire(e, lock, level)
 		}
+		if gi != nil {
+			e.check("lock", Eq(cur, IntLit(0)), "lock "+gi.TypeName+"."+gi.Field+" is not already held at this acquisition (sync mutexes are not reentrant)")
+			e.havocGuarded(lock, gi)
+			e.vc.Trusted["concurrency: state guarded by a declared lock is arbitrary (up to the lock invariant) at every acquisition; goroutines are not interleaved otherwise"] = true
+		}
 		e.st.held[k] = Ite(g, IntLit(int64(level)), cur)
+		if gi != nil {
+			snap := e.st.clone()
+			snap.atlock = nil
+			e.st.atlock = snap
+		}
 	} else {
+		if gi != nil && !e.silent {
+			e.check("lock", Eq(cur, IntLit(int64(level))), "lock "+gi.TypeName+"."+gi.Field+" is held at the level being released")
+			if gi.Inv != nil && level == 2 {
+				if t, err := e.lockSelfEnv(lock).EvalBool(gi.Inv); err == nil {
+					e.vc.ObligeAll("lock", "invariant:"+trunc(e.curLine(), 50), "lock invariant of "+gi.TypeName+"."+gi.Field+" holds at release: "+gi.InvText, e.curPos(), e.g, t, e.root.inputs)
+				} else {
+					o := e.vc.Oblige("lock", "invariant:"+trunc(e.curLine(), 50), "cannot evaluate lock invariant: "+err.Error(), e.curPos(), e.g, False, nil)
+					o.Status = "unknown"
+				}
+			}
+		}
 		e.st.held[k] = Ite(g, IntLit(0), cur)
 	}
+}
+
+// guardedAccess: an access to a map of a guarded type needs the guarding lock (some instance of it) at the level.
+func (e *Exec) guardedAccess(mpHeap string, write bool, what string) {
+	if e.silent {
+		return
+	}
+	gis := e.P.guardsOfHeap(mpHeap)
+	if len(gis) == 0 {
+		return
+	}
+	level := int64(1)
+	if write {
+		level = 2
+	}
+	var alts []*Term
+	keys := map[string]bool{}
+	for k := range e.st.held {
+		keys[k] = true
+	}
+	for k := range e.root.held0 {
+		keys[k] = true
+	}
+	var ks []string
+	for k := range keys {
+		ks = append(ks, k)
+	}
+	sort.Strings(ks)
+	for _, k := range ks {
+		info := e.root.heldInfo[k]
+		if info == nil {
+			continue
+		}
+		for _, gi := range gis {
+			if gi == info {
+				alts = append(alts, IntLe(IntLit(level), e.heldGet(k, info)))
+			}
+		}
+	}
+	goal := Or(alts...)
+	mode := "read"
+	if write {
+		mode = "write"
+	}
+	e.check("lock", goal, what+" of a map guarded by "+gis[0].TypeName+"."+gis[0].Field+" needs the lock held for "+mode)
 }
 
 func (e *Exec) lockCheck(p *Ptr, write bool) {
@@ -779,4 +1026,79 @@ func init() {
 	}
 	goModels["github.com/jcmturner/gofork/encoding/asn1.Unmarshal"] = m
 	goModels["github.com/jcmturner/gofork/encoding/asn1.UnmarshalWithParams"] = m
+}
+
+func (e *Exec) curPos() string {
+	if e.curInstr == nil {
+		return ""
+	}
+	return e.P.posString(instrPos(e.curInstr))
+}
+
+func (e *Exec) curLine() string {
+	if e.curInstr == nil {
+		return ""
+	}
+	return e.P.srcLine(instrPos(e.curInstr))
+}
+
+// strJoin: strings.Join as an uninterpreted function of the backing array, offset, length and separator.
+func (e *Exec) strJoin(sl, sep *Term) *Term {
+	n, s := elemHeap(types.Typ[types.String])
+	arr := e.canonObj(e.heapGet(n, s), SlRef(sl))
+	return App("strjoin", SStr, arr, SlOff(sl), SlLen(sl), sep)
+}
+
+func reachableMaps(t types.Type, out *[]*types.Map, seen map[string]bool) {
+	t = types.Unalias(t)
+	k := typeKey(t)
+	if seen[k] || isTimeType(t) {
+		return
+	}
+	seen[k] = true
+	switch u := t.Underlying().(type) {
+	case *types.Pointer:
+		reachableMaps(u.Elem(), out, seen)
+	case *types.Slice:
+		reachableMaps(u.Elem(), out, seen)
+	case *types.Array:
+		reachableMaps(u.Elem(), out, seen)
+	case *types.Struct:
+		for i := 0; i < u.NumFields(); i++ {
+			reachableMaps(u.Field(i).Type(), out, seen)
+		}
+	case *types.Map:
+		*out = append(*out, u)
+		reachableMaps(u.Elem(), out, seen)
+	}
+}
+
+// havocGuarded: the state protected by a declared lock becomes arbitrary up to well-formedness and the lock invariant.
+func (e *Exec) havocGuarded(lock Val, gi *GuardInfo) {
+	var hn []string
+	for h := range gi.Heaps {
+		hn = append(hn, h)
+	}
+	sort.Strings(hn)
+	for _, h := range hn {
+		e.heap0(h, gi.Heaps[h])
+		e.st.heaps[h] = e.vc.Fresh(h, gi.Heaps[h])
+	}
+	// the values held by the havocked maps are well-formed objects allocated before now
+	for _, mt := range gi.Maps {
+		if !hasInv(mt.Elem()) {
+			continue
+		}
+		_, mv := mapHeapNames(mt)
+		vs := ArraySort(SInt, ArraySort(sortOf(mt.Key()), sortOf(mt.Elem())))
+		el := Select(Select(e.heapGet(mv, vs), Sym("gm.q", SInt)), Sym("gk.q", sortOf(mt.Key())))
+		e.vc.Assume(True, Forall([][2]string{{"gm.q", SInt}, {"gk.q", sortOf(mt.Key())}}, invOf(mt.Elem(), el, e.st.ac), el))
+	}
+	if gi.Inv != nil {
+		if t, err := e.lockSelfEnv(lock).EvalBool(gi.Inv); err == nil {
+			e.vc.Assume(e.g, t)
+		} else {
+			e.vc.Note("lock invariant of %s.%s not usable: %v", gi.TypeName, gi.Field, err)
+		}
+	}
 }
